@@ -32,4 +32,4 @@ try:
 finally:
     sh(["git", "-C", "/repo", "checkout", "--", "."])
     sh(["git", "-C", "/repo", "reset", "-q"])
-json.dump(results, open(os.path.join(d, "check_results.json"), "w"), indent=1)
+json.dump(results, open(os.environ.get("SEEDED_OUT") or os.path.join(d, "check_results.json"), "w"), indent=1)
